@@ -5,10 +5,11 @@ statement evaluated on the implementation alone (the oracle that yields replays)
 import json, os, sys, time, collections
 from vlib import wire, rng, leanbuild, verdict, bot
 from vlib.verdict import Case
+from c18_threads import LockHeld
 
 PROPERTY = 'C19'
 MANIFEST = {
- 'level_text': 'Lean 4 theorems, kernel-checked, about a model of Irc.queueMsg/sendMsg/takeMsg/die/reset and IrcMsgQueue, for every interleaving of those calls with clock ticks, MOTD end, PONG, echo-message (un)acknowledgement and configuration changes, and for every chain of outFilters (arbitrary functions): multiset conservation (accepted = handed to the driver + dropped by a filter + lost + discarded by reset + still queued; refusal is an explicit False with no effect), fast queue first then the most urgent non-empty class and its head, per-class FIFO as list equations over whole histories (a rate-limited JOIN only moves to the back), a trace checker for throttle and JOIN-rate gaps that every trace passes plus its meaning spelled out, the driver is killed only with both queues empty once connected (after the repair of takeMsg), takeMsg satisfies the recursive equation of the code and a filter returning None consumes exactly its message, progress (clock past the limits => a take consumes a message) and a quitting bot drains in at most as many takes as messages wait and then closes; after the repair of the echo emulation (the echo is now a tagged copy; a re-queued IrcMsg object used to be swallowed by the assertion) nothing is lost and the conservation law holds in full (no_loss, conservation_full: for callers handing over any objects any number of times and filters returning their argument or a new message); the tagged objects are only the echo copies made by the bot. Server tags are part of message equality (duplicate refusal). The labeled-response label is in the model as the first link of the chain (same object, one more server tag, never drops; delivered_is_labeled), so every theorem about arbitrary filter chains covers it. takeMsg is a loop since a repair prompted here (it called itself once per dropped message: some hundreds of messages dropped in a row hit the recursion limit, the firewall swallowed the RecursionError and a message no filter had dropped was lost; witness in KNOWN_FINDINGS, replayed at a shallow stack on every run); its bound, one round per message waiting at entry plus one, is the fuel of the model. OutFilters that call irc.sendMsg / irc.queueMsg themselves are modelled (Reentrant.lean): with filters that queue nothing the re-entrant model is the verified one (rtakeMsg_plain), conservation holds with everything the filters send counted as accepted (rtakeMsg_conserves), what they send goes behind what is waiting, and a run of dropped messages, whatever is queued meanwhile, cannot keep the first message the chain lets through from leaving in the same call (rtakeMsg_no_stall); the differential runs include such filters (drop-and-send, drop-and-queue, pass-and-send). The ping time-out path is spelled out (ping_timeout_reconnects: nothing is returned, the driver reconnects, reset() clears both queues, forgets the unanswered PING and leaves exactly the registration messages, as new objects, in the fast queue; reset_starts_clean: the ping machinery is idle until the next end of MOTD, so a reconnect cannot trigger another; a dying bot queues nothing). The ping machinery over whole histories (take_ping_cases, ping_history): a takeMsg either leaves the ping state alone, or emits exactly one PING — with both queues empty, after the MOTD, the interval elapsed, none outstanding —, or with a PING outstanding that long reconnects exactly once; over a life, reconnects + outstanding <= PINGs <= reconnects + PONGs/resets + outstanding (never two time-outs for one PING, at most one PING outstanding). Threads: Irc.queueMsg from other threads is modelled at statement granularity (the test for an equal queued message and the append as separate steps of a thread): conservation holds for every interleaving (trun_conserves), the refusal of duplicates did not (unlocked_duplicates; found on the real code by the two-thread stream, repaired with a lock in IrcMsgQueue.enqueue whose placement is extracted, enqueue_is_locked; under it the two steps are one queueMsg, locked_pair). Priority tables, the rate-limited command and the echo-emulated commands are re-extracted from /repo on every run and pinned by table lemmas. The model is tied to src/irclib.py by a differential run of seeded operation sequences on a real Irc object (return values, driver calls, filter log, discarded messages and the full queue/state dump after every operation), which also evaluates the property statement directly on the implementation to produce replays; a second stream drives the same Irc through the real drivers.Socket.SocketDriver on a fake socket (every takeMsg call the driver makes is compared with the model; the bytes on each connection must be exactly the messages takeMsg returned, each line at most 512 bytes and cut on a character boundary, every new connection starting with the registration) — which exposed and led to the repair of SocketDriver._sendIfMsgs (a message taken while the previous one was still buffered overwrote it).',
+ 'level_text': 'Lean 4 theorems, kernel-checked, about a model of Irc.queueMsg/sendMsg/takeMsg/die/reset and IrcMsgQueue, for every interleaving of those calls with clock ticks, MOTD end, PONG, echo-message (un)acknowledgement and configuration changes, and for every chain of outFilters (arbitrary functions): multiset conservation (accepted = handed to the driver + dropped by a filter + lost + discarded by reset + still queued; refusal is an explicit False with no effect), fast queue first then the most urgent non-empty class and its head, per-class FIFO as list equations over whole histories (a rate-limited JOIN only moves to the back), a trace checker for throttle and JOIN-rate gaps that every trace passes plus its meaning spelled out, the driver is killed only with both queues empty once connected (after the repair of takeMsg), takeMsg satisfies the recursive equation of the code and a filter returning None consumes exactly its message, progress (clock past the limits => a take consumes a message) and a quitting bot drains in at most as many takes as messages wait and then closes; after the repair of the echo emulation (the echo is now a tagged copy; a re-queued IrcMsg object used to be swallowed by the assertion) nothing is lost and the conservation law holds in full (no_loss, conservation_full: for callers handing over any objects any number of times and filters returning their argument or a new message); the tagged objects are only the echo copies made by the bot. Server tags are part of message equality (duplicate refusal). The labeled-response label is in the model as the first link of the chain (same object, one more server tag, never drops; delivered_is_labeled), so every theorem about arbitrary filter chains covers it. takeMsg is a loop since a repair prompted here (it called itself once per dropped message: some hundreds of messages dropped in a row hit the recursion limit, the firewall swallowed the RecursionError and a message no filter had dropped was lost; witness in KNOWN_FINDINGS, replayed at a shallow stack on every run); its bound, one round per message waiting at entry plus one, is the fuel of the model. OutFilters that call irc.sendMsg / irc.queueMsg themselves are modelled (Reentrant.lean): with filters that queue nothing the re-entrant model is the verified one (rtakeMsg_plain), conservation holds with everything the filters send counted as accepted (rtakeMsg_conserves), what they send goes behind what is waiting, and a run of dropped messages, whatever is queued meanwhile, cannot keep the first message the chain lets through from leaving in the same call (rtakeMsg_no_stall); the differential runs include such filters (drop-and-send, drop-and-queue, pass-and-send). The ping time-out path is spelled out (ping_timeout_reconnects: nothing is returned, the driver reconnects, reset() clears both queues, forgets the unanswered PING and leaves exactly the registration messages, as new objects, in the fast queue; reset_starts_clean: the ping machinery is idle until the next end of MOTD, so a reconnect cannot trigger another; a dying bot queues nothing). The ping machinery over whole histories (take_ping_cases, ping_history): a takeMsg either leaves the ping state alone, or emits exactly one PING — with both queues empty, after the MOTD, the interval elapsed, none outstanding —, or with a PING outstanding that long reconnects exactly once; over a life, reconnects + outstanding <= PINGs <= reconnects + PONGs/resets + outstanding (never two time-outs for one PING, at most one PING outstanding). A ping time-out discards nothing (timeout_discards_nothing; on the implementation: a reconnect for an unanswered PING with messages waiting is an oracle failure). A call into the Irc object that does not return is a judged failure (watchdog), and queueMsg is also handed things that are no IrcMsg. Threads: Irc.queueMsg from other threads is modelled at statement granularity (the test for an equal queued message and the append as separate steps of a thread): conservation holds for every interleaving (trun_conserves), the refusal of duplicates did not (unlocked_duplicates; found on the real code by the two-thread stream, repaired with a lock in IrcMsgQueue.enqueue whose placement is extracted, enqueue_is_locked; under it the two steps are one queueMsg, locked_pair). Priority tables, the rate-limited command and the echo-emulated commands are re-extracted from /repo on every run and pinned by table lemmas. The model is tied to src/irclib.py by a differential run of seeded operation sequences on a real Irc object (return values, driver calls, filter log, discarded messages and the full queue/state dump after every operation), which also evaluates the property statement directly on the implementation to produce replays; a second stream drives the same Irc through the real drivers.Socket.SocketDriver on a fake socket (every takeMsg call the driver makes is compared with the model; the bytes on each connection must be exactly the messages takeMsg returned, each line at most 512 bytes and cut on a character boundary, every new connection starting with the registration) — which exposed and led to the repair of SocketDriver._sendIfMsgs (a message taken while the previous one was still buffered overwrote it).',
  'level_note': 'Trusted: Lean kernel; axioms propext/Classical.choice/Quot.sound only; harness/extractors/ircqueue.py; the correspondence harness (generator quality bounds what it sees); integer-valued virtual clock; stub driver whose reconnect() calls irc.reset() as SocketDriver.reconnect does; a second Irc stays registered so that _reallyDie does not clear the shared callback list. Modelled: IrcMsgQueue.enqueue/dequeue/__contains__/reset, Irc.queueMsg/sendMsg/takeMsg (fast queue, throttle, ping emission and ping time-out reconnect, outFilter chain with recursion on None, firewall on a raising filter, echo emulation tag/assert, zombie branch)/die/reset/_queueConnectMessages/_reallyDie (driver part), object identity of messages, server tags in message equality. the labeled-response label (makeLabel() is random: the model uses the fresh number of the link; only the presence of such a label is compared). Not modelled: _truncateMsg as a function (it rewrites only the cached wire text, not prefix/command/arguments; its 512-byte bound is proved in C12 and checked here on the socket of the real driver with over-long ASCII and multi-byte messages); the label written into an object that is queued twice at the same moment (aliasing: the model labels each queue entry separately); state.addMsg of outgoing messages (only under world.testing; the harness runs with world.testing False); a filter chain that keeps re-sending what it drops (an endless source of messages: takeMsg gives up after one round per message waiting at entry plus one and returns None; nothing is lost, but such a chain starves the regular queue by its own doing), the callbacks of real plugins (the Irc under test carries harness filter callbacks only), non-ASCII command upper-casing, negative or fractional rates, messages sent with sendMsg are outside the throttle/JOIN-rate claims (by design of the fast queue). Stated precondition of quit_drains: die() before the end of MOTD (afterConnect False) closes the connection at once by design.',
  'technique': 'Lean 4 proof (induction over operation sequences with invariants) + table extraction + differential correspondence',
  'design_ref': 'DESIGN.md §6 C19',
@@ -22,7 +23,7 @@ THEOREMS = ['C19.tables_ok', 'C19.classes_ok', 'C19.conservation', 'C19.conserva
             'C19.ping_timeout_reconnects', 'C19.reset_starts_clean', 'C19.reset_zombie',
             'C19.label_step', 'C19.delivered_is_labeled',
             'C19.rtakeMsg_plain', 'C19.rtakeMsg_conserves', 'C19.rtakeMsg_no_stall',
-            'C19.take_ping_cases', 'C19.pong_clears', 'C19.ping_history',
+            'C19.take_ping_cases', 'C19.pong_clears', 'C19.ping_history', 'C19.timeout_discards_nothing',
             'C19.trun_conserves', 'C19.locked_pair', 'C19.unlocked_duplicates', 'C19.locked_refuses', 'C19.enqueue_is_locked']
 TRUSTED = ['Lean 4.33.0 kernel; axioms ⊆ {propext, Classical.choice, Quot.sound}',
            'harness/extractors/ircqueue.py (_high, _low, rate-limited command, echo-emulated commands → Gen/IrcQueue.lean)',
@@ -128,6 +129,25 @@ class StubDriver(object):
             self.impl.irc.reset()
 
 
+class Hang(Exception):
+    """a call into the Irc object did not return"""
+
+def guarded(fn, seconds=5.0):
+    """run fn(); a call that does not return within `seconds` of wall time is a judged outcome (Hang), not a
+    stuck check (a blocked lock.acquire() is interrupted by the signal)"""
+    import signal
+    def on_alarm(sig, frame):
+        raise Hang()
+    old = signal.signal(signal.SIGALRM, on_alarm)
+    signal.setitimer(signal.ITIMER_REAL, seconds)
+    try:
+        return fn()
+    finally:
+        signal.setitimer(signal.ITIMER_REAL, 0)
+        signal.signal(signal.SIGALRM, old)
+
+BAD_ARGS = {'none': None, 'str': 'PRIVMSG #a :x', 'int': 7, 'bytes': b'PRIVMSG #a :x', 'tuple': ('PRIVMSG', '#a')}
+
 class Impl(object):
     """one real Irc object driven by an op sequence; produces the canonical observation lines
     and evaluates the property statement (oracle) on what it sees"""
@@ -158,6 +178,7 @@ class Impl(object):
         self.delivered_ids = set()
         self.cur_op = None
         self.died = False
+        self.hung = False
         self.take_fn = lambda: self.irc.takeMsg()
         self.last_taken = None
 
@@ -277,6 +298,14 @@ class Impl(object):
         is injected at the first point where CPython could run it: when A asks for the queue's lock (since
         the repair), or — without a lock — between A's `msg in self` test and its append.
         -> (observation lines, equivalent sequential ops) in the order the critical sections ran"""
+        try:
+            return guarded(lambda: self._qrace(op), 8.0)
+        except (Hang, LockHeld):
+            self.hung = True
+            self.fail('two threads in irc.queueMsg: a call does not return (it waits for ever for the lock of the queue)')
+            return [], []
+
+    def _qrace(self, op):
         from c18_threads import HookLock
         self.opi += 1
         self.cur_op = 'queue'
@@ -366,7 +395,13 @@ class Impl(object):
         if k == 'queue':
             m = self.msg(op[1], op[2])
             dup_present = any(x == m for x in bq[1] + bq[2] + bq[3])
-            r = irc.queueMsg(m)
+            try:
+                r = guarded(lambda: irc.queueMsg(m))
+            except (Hang, LockHeld):
+                self.hung = True
+                self.fail('irc.queueMsg(%s) does not return (it waits for ever for the lock of the queue): nothing can be '
+                          'queued any more' % self.ser(m))
+                return 'HANG'
             ret = 'T' if r else 'F'
             after = collections.Counter(id(x) for x in self.pending())
             if r is True:
@@ -388,7 +423,12 @@ class Impl(object):
                 self.fail('queueMsg(%s) returned %r, neither True nor False' % (self.ser(m), r))
         elif k == 'send':
             m = self.msg(op[1], op[2])
-            irc.sendMsg(m)
+            try:
+                guarded(lambda: irc.sendMsg(m))
+            except (Hang, LockHeld):
+                self.hung = True
+                self.fail('irc.sendMsg(%s) does not return' % self.ser(m))
+                return 'HANG'
             after = collections.Counter(id(x) for x in self.pending())
             if zombie_before:
                 self.tags.add('send-refused')
@@ -399,6 +439,22 @@ class Impl(object):
                 if after != before + collections.Counter([id(m)]):
                     self.fail('sendMsg(%s) did not add exactly that message' % self.ser(m))
                 self.note_accept(m)
+        elif k == 'queuebad':
+            # a plugin hands queueMsg something that is no IrcMsg: the caller gets an exception, nothing else happens
+            arg = BAD_ARGS[op[1]]
+            try:
+                r = guarded(lambda: irc.queueMsg(arg))
+                if r is not False and not zombie_before:
+                    self.fail('irc.queueMsg(%r) returned %r' % (arg, r))
+            except (Hang, LockHeld):
+                self.hung = True
+                self.fail('irc.queueMsg(%r) does not return' % (arg,))
+                return 'HANG'
+            except Exception as e:
+                self.tags.add('queue-non-message-%s' % type(e).__name__)
+            after = collections.Counter(id(x) for x in self.pending())
+            if after != before:
+                self.fail('irc.queueMsg(%r) changed the queues' % (arg,))
         elif k == 'take':
             ret, chain_s = self.do_take(before, bq, zombie_before)
         elif k == 'die':
@@ -470,7 +526,14 @@ class Impl(object):
         else:
             self_take = self.take_fn
         prelabel = dict((id(x), x.server_tags.get('label')) for q in bq for x in q)
-        r = self_take()
+        try:
+            r = guarded(self_take, 8.0)
+        except (Hang, LockHeld):
+            self.hung = True
+            self.last_taken = None
+            self.fail('irc.takeMsg() does not return (its own queueMsg of the PING waits for ever for the lock of the queue): '
+                      'the driver is stuck')
+            return 'HANG', '-'
         self.last_taken = r
         chain = [list(e) for e in self.chain]
         ret = 'N' if r is None else 'M' + self.ser(r)
@@ -572,6 +635,13 @@ class Impl(object):
         consumed = collections.Counter(id(e[0]) for e in chain)
         if reset_happened:
             self.tags.add('ping-timeout-reconnect')
+            if self.disc:
+                # the ping branch belongs to an idle connection: with messages waiting (throttled, rate-limited)
+                # takeMsg hands them out, it does not reconnect and throw them away
+                mine = [m for m in self.disc if id(m) in self.serial]
+                self.fail('takeMsg gave up the connection for an unanswered PING while %d message(s) were waiting: %s %s '
+                          'discarded by the reset (accepted by queueMsg/sendMsg, never handed to the driver)'
+                          % (len(self.disc), self.sers((mine or self.disc)[:3]), 'was' if len(self.disc) == 1 else 'were'))
             for m in self.disc:
                 self.note_gone(m)
             for m in after_l:
@@ -663,7 +733,11 @@ class DriverImpl(Impl):
         self.opi += 1
         self.cur_op = 'take'
         self.drun_obs = []
-        rig().drivers.run()
+        try:
+            guarded(rig().drivers.run, 10.0)
+        except (Hang, LockHeld):
+            self.hung = True
+            self.fail('drivers.run() does not return: the driver is stuck inside irc.takeMsg()')
         self.tags.add('driver-run-%d-takes' % min(len(self.drun_obs), 3))
         return list(self.drun_obs)
 
@@ -725,6 +799,8 @@ def model_lines(ops, connect):
             L.append('%s\t%s' % (k, enc_content(op[1], op[2])))
         elif k == 'tick':
             L.append('tick\t%d' % op[1])
+        elif k == 'queuebad':
+            L.append('noop')
         elif k in ('capecho', 'caplabel'):
             L.append('%s\t%d' % (k, 1 if op[1] else 0))
         else:
@@ -858,7 +934,7 @@ def gen_ops(r, maxlen=60, reuse=False):
         elif x < 0.915:
             ops.append(['reset'] if r.random() < 0.4 else ['take'])
         elif x < 0.94:
-            ops.append(['pong'])
+            ops.append(['pong'] if r.random() < 0.6 else ['queuebad', r.choice(sorted(BAD_ARGS))])
         elif x < 0.955:
             ops.append(['capecho', r.random() < 0.5] if reuse or r.random() < 0.5 else ['caplabel', r.random() < 0.7])
         elif x < 0.98:
@@ -924,14 +1000,21 @@ def run_case(ops, kind):
                 lines_, seq_ = im.qrace(op)
                 obs.extend(lines_)
                 expanded.extend(seq_)
+                if im.hung:
+                    break
                 continue
             if op[0] == 'drun':
                 lines_ = im.drun()
                 obs.extend(lines_)
                 expanded.extend([['take']] * len(lines_))
+                if im.hung:
+                    break
                 continue
             expanded.append(op)
             o = im.do(op)
+            if im.hung:
+                expanded.pop()
+                break
             if op[0] == 'new':
                 connect = [im.ser(m) for m in im.pending()]
             if o is not None:
